@@ -60,6 +60,25 @@ struct SPool {
                 }
             }
             size_t n = sizeof_(o);
+            // every other read-only observer of an ST::string is a function of (c_str(), size())
+            if (o != BUFSLOT) {
+                const ST::string &s = str(o); const char *bad = nullptr;
+                if (s.begin() != p || s.cbegin() != p || s.end() != p + n || s.cend() != p + n) bad = "!iterators";
+                else if (s.rbegin().base() != p + n || s.crbegin().base() != p + n || s.rend().base() != p || s.crend().base() != p) bad = "!reverse-iterators";
+                else if (s.empty() != (n == 0)) bad = "!empty";
+                else if (&s.front() != p || &s.back() != (n ? p + n - 1 : p)) bad = "!front-back";
+                else if (s.c_str("sub") != (n ? p : "sub") && !(n == 0 && std::string(s.c_str("sub")) == "sub")) bad = "!c_str-substitute";
+                else if (s.view().data() != p || s.view().size() != n || (n >= 2 && (s.view(1).data() != p + 1 || s.view(1).size() != n - 1 || s.view(1, 1).size() != 1))) bad = "!view";
+                else {
+                    for (size_t i = 0; i < n && !bad; ++i) if (&s.at(i) != p + i || &s[i] != p + i) bad = "!at";
+                    for (size_t i : {n, n + 1, (size_t)-1}) {
+                        bool threw = false;
+                        try { (void)s.at(i); } catch (const std::out_of_range &) { threw = true; }
+                        if (!threw && !bad) bad = "!at-range";
+                    }
+                }
+                if (bad) where = bad;
+            }
             if (!out.empty()) out += ",";
             out += "o" + std::to_string(o) + ":" + std::to_string(n) + ":" + hex_units(p, n) + ":";
             put_hex(out, unit_val(p[n]), 2);
